@@ -59,10 +59,14 @@ class Pipe(tuple):
     """(names, function, site) — names: every mapper some call applies, in order; `.every`: those EVERY call applies;
     `.lists`: the table of each `dict_mapper` call reached from the function."""
 
-    def __new__(cls, names, fn, site, lists=None):
+    def __new__(cls, names, fn, site, lists=None, tabular=True):
         self = super().__new__(cls, (names, fn, site))
         self.lists = lists if lists is not None else [names]
         self.every = {n for n in names if all(n in l for l in self.lists)}
+        self.tabular = tabular  # False: the function converts by an explicit dispatch, names are the converters it calls
+        # can the side be paired with the other by the a2b / b2a names of its mappers?  (not when it dispatches itself, nor when
+        # a table holds a converter of another name, e.g. one function composed of several steps)
+        self.pairable = tabular and all(_inverse_name(n) is not None for n in names)
         return self
 
 
@@ -82,7 +86,17 @@ def mapper_list(p, fn):
 
 
 def _pipe(p, fn):
-    got = mapper_lists(p, fn)
+    got = applied_lists(p, fn)
+    if not got:
+        # no table: the function dispatches on the value itself (`if isinstance(value, X): return x2y(value)`); what can be
+        # named are the converters it calls — whether every kind is covered is decided on kinds (C14.COVER), not on names
+        names = []
+        for f in raw_closure(p, fn):
+            for c in ast.walk(f.node):
+                nm = call_name(c) if isinstance(c, ast.Call) else None
+                if nm and nm not in names and _inverse_name(nm) and _func(p, f, nm) is not None:
+                    names.append(nm)
+        return Pipe(names, fn, None, [], tabular=False)
     names = list(dict.fromkeys(n for g in got for n in g[0]))
     if all(g[0] == got[0][0] for g in got):
         names = list(got[0][0])  # keeps repetitions of the one table
@@ -191,6 +205,10 @@ def rule_inv(ctx) -> RuleResult:
                 continue
             inv = _inverse_name(nm)
             ok = inv is not None and inv in other
+            other_fns = ("numify",) if side == "write" else ("demote", "stringify")
+            if not ok and (inv is None or any(not pl[k].pairable for k in other_fns)):
+                res.inst(f"{side} mapper {nm}: not paired by name (explicit dispatch / composed converter), coverage decided on kinds (C14.COVER)")
+                continue
             res.inst(f"{side} mapper {nm} <-> {inv} on the {what} side", ok=ok)
             if not ok:
                 owner = next(k for k, v in pl.items() if nm in v[0])
@@ -672,14 +690,34 @@ def rule_update(ctx) -> RuleResult:
     if dprm is None:
         raise AnalysisError(f"{u.where}: update_ui_values takes no data argument")
 
+    def keys_of(r, depth=0):
+        """r enumerates the keys of the data argument (each once, in any order): data / data.keys() / list(..) / sorted(..) /
+        a comprehension `[k for k in <keys> if ..]` / a concatenation of complementary selections of them"""
+        if depth > 6:
+            return False
+        if unparse(r) == dprm:
+            return True
+        if isinstance(r, ast.Call):
+            if isinstance(r.func, ast.Attribute) and r.func.attr == "keys" and not r.args and unparse(r.func.value) == dprm:
+                return True
+            if isinstance(r.func, ast.Name) and r.func.id in ("list", "tuple", "sorted", "reversed", "iter") and r.args:
+                return keys_of(r.args[0], depth + 1)
+        if isinstance(r, (ast.ListComp, ast.GeneratorExp)) and len(r.generators) == 1 and isinstance(r.elt, ast.Name) \
+                and isinstance(r.generators[0].target, ast.Name) and r.generators[0].target.id == r.elt.id:
+            return keys_of(r.generators[0].iter, depth + 1)
+        if isinstance(r, ast.BinOp) and isinstance(r.op, ast.Add):
+            return keys_of(r.left, depth + 1) and keys_of(r.right, depth + 1)
+        return False
+
     def over_data(e, at):
         """'items' / 'keys' when the expression iterates the data argument"""
         r = flow.resolve(e, at)
-        while isinstance(r, ast.Call) and isinstance(r.func, ast.Name) and r.func.id in ("list", "tuple", "sorted", "iter") and len(r.args) == 1:
-            r = r.args[0]
-        if isinstance(r, ast.Call) and isinstance(r.func, ast.Attribute) and r.func.attr in ("items", "keys") and unparse(r.func.value) == dprm:
-            return r.func.attr
-        return "keys" if unparse(r) == dprm else None
+        inner = r
+        while isinstance(inner, ast.Call) and isinstance(inner.func, ast.Name) and inner.func.id in ("list", "tuple", "sorted", "iter") and len(inner.args) >= 1:
+            inner = inner.args[0]
+        if isinstance(inner, ast.Call) and isinstance(inner.func, ast.Attribute) and inner.func.attr == "items" and unparse(inner.func.value) == dprm:
+            return "items"
+        return "keys" if keys_of(r) else None
 
     loops = []  # (header node, key variable, value variable | None)
     for n in g.nodes:
@@ -797,4 +835,343 @@ def rule_update(ctx) -> RuleResult:
     return res
 
 
-RULES = [rule_inv, rule_collide, rule_flat, rule_update]
+# ------------------------------------------------------------------------------------------------------- kinds of values
+def _annotation_classes(p, ann) -> list:
+    out = []
+    if ann is None:
+        return out
+    if isinstance(ann, ast.Constant) and isinstance(ann.value, str):
+        try:
+            ann = ast.parse(ann.value, mode="eval").body
+        except SyntaxError:
+            return out
+    for x in ast.walk(ann):
+        nm = x.id if isinstance(x, ast.Name) else (x.attr if isinstance(x, ast.Attribute) else None)
+        cands = p.by_name.get(nm, []) if nm else []
+        if len(cands) == 1 and cands[0] not in out:
+            out.append(cands[0])
+    return out
+
+
+def _maximal(classes) -> list:
+    return [c for c in classes if not any(o is not c and c.is_subclass_of(o) for o in classes)]
+
+
+def produced_kinds(ctx, fn) -> list:
+    """Kinds of values a read-side converter can return instead of its argument: None, UUID, the infinities (float(<token>)),
+    an instance of a class it constructs, or — for values fetched from the workspace — the classes named by the return
+    annotations of the accessors the returned expression goes through (get_entity -> Entity | PropertyGroup, ...)."""
+    p = ctx.p
+    v = _view(ctx, fn)
+    flow = flow_of(ctx, v)
+    prm = v.params[0] if v.params else None
+    kinds, classes = [], []
+    toks = [t for t in compared_tokens(v.node, prm, flow) if isinstance(t, str)] if prm else []
+    for leaf in result_leaves(v.node, flow):
+        if isinstance(leaf, ast.Name) and leaf.id == prm:
+            continue
+        if isinstance(leaf, ast.Constant):
+            if leaf.value is None and "None" not in kinds:
+                kinds.append("None")
+            continue
+        if isinstance(leaf, ast.Call):
+            nm = call_name(leaf)
+            r = p.resolve_expr(v.module, leaf.func) if isinstance(leaf.func, (ast.Name, ast.Attribute)) else None
+            if r and r[0] == "class":
+                classes.append(r[1])
+                continue
+            if nm == "UUID":
+                if "UUID" not in kinds:
+                    kinds.append("UUID")
+                continue
+            if nm == "float":
+                for t, k in (("inf", "+inf"), ("-inf", "-inf")):
+                    if t in toks and k not in kinds:
+                        kinds.append(k)
+                continue
+            cands = p.by_name.get(nm, []) if nm else []
+            if len(cands) == 1 and isinstance(leaf.func, ast.Name):
+                classes.append(cands[0])
+                continue
+        for x in ast.walk(leaf):
+            if isinstance(x, ast.Attribute):
+                for ci in p.classes:
+                    m = ci.own(x.attr)
+                    if m and m[0] == "method":
+                        classes += _annotation_classes(p, m[1].node.returns)
+                    elif m and m[0] == "prop" and m[1].getter is not None:
+                        classes += _annotation_classes(p, m[1].getter.node.returns)
+    return kinds + _maximal(list(dict.fromkeys(classes)))
+
+
+def _kind_eval(ctx):
+    from ._c14_kinds import KindEval
+
+    if "c14.kinds" not in ctx.cache:
+        ctx.cache["c14.kinds"] = KindEval(ctx)
+    return ctx.cache["c14.kinds"]
+
+
+def _read_side_kinds(ctx, pl) -> list:
+    """[(kind, reader name)] for every kind the read side (numify's mappers, promote's converters) produces"""
+    out = []
+    for owner in ("numify", "promote"):
+        fn_ctx = pl[owner][1] or pl["numify"][1]
+        for nm in dict.fromkeys(pl[owner][0]):
+            rfn = _func(ctx.p, fn_ctx, nm) or _mapper(ctx, pl, nm)
+            if rfn is None:
+                continue
+            got = produced_kinds(ctx, rfn)
+            if owner == "promote" and not [k for k in got if not isinstance(k, str)]:
+                raise AnalysisError(f"{rfn.where}: the kinds of entities {nm} returns could not be derived (no annotated accessor in what it returns)")
+            for k in got:
+                if all(k is not o and k != o for o, _ in out):
+                    out.append((k, nm))
+    return out
+
+
+def rule_cover(ctx) -> RuleResult:
+    from ._c14_kinds import PASS, kind_name
+
+    res = RuleResult(
+        "C14.COVER",
+        "C14",
+        "every kind of value the read side produces (None, infinities, UUID, Workspace, the entity classes promote fetches from the "
+        "workspace) is converted again by the write side: followed through demote and then stringify — mapper tables or an explicit "
+        "isinstance dispatch alike — a value of that kind is not handed to json.dump unchanged",
+        floor=4,
+    )
+    pl = pipelines(ctx)
+    ke = _kind_eval(ctx)
+    demote, strfy = pl["demote"][1], pl["stringify"][1]
+    for kind, reader in _read_side_kinds(ctx, pl):
+        d = ke.sink(demote, kind)
+        s = ke.sink(strfy, kind) if d == {PASS} else None
+        ok = not (d == {PASS} and s == {PASS})
+        res.inst(f"{kind_name(kind)} (from {reader}): demote {sorted(d)}" + (f", stringify {sorted(s)}" if s is not None else ""), nontrivial=True, ok=ok)
+        if not ok:
+            res.find("InputFile", "demote", f"values of kind {kind_name(kind)} produced by {reader} are written unchanged", demote.where,
+                     f"{reader} turns an identifier / token read from the file into a {kind_name(kind)}; neither demote nor stringify converts a "
+                     f"{kind_name(kind)} back: demote(promote(x)) != x for it and json.dump receives the object itself")
+    return res
+
+
+def rule_shadow(ctx) -> RuleResult:
+    from ._c14_kinds import CHANGED, kind_name
+
+    res = RuleResult(
+        "C14.SHADOW",
+        "C14",
+        "in a write table the mappers run first to last on the same value: a value kind of the domain that one mapper converts "
+        "(the infinities for inf2str, None for none2str, UUID for as_str_if_uuid, Workspace for workspace2path) must reach it — no "
+        "earlier mapper of the table converts that kind (documented one-way mappers are not protected)",
+        floor=6,
+    )
+    p = ctx.p
+    pl = pipelines(ctx)
+    ke = _kind_eval(ctx)
+    base = ["None", "bool", "int", "float", "+inf", "-inf", "str", "UUID"]
+    classes = [k for k, _ in _read_side_kinds(ctx, pl) if not isinstance(k, str)]
+    for owner in ("demote", "stringify"):
+        fn = pl[owner][1]
+        for table in pl[owner].lists:
+            fns = [(nm, _func(p, fn, nm) or _mapper(ctx, pl, nm)) for nm in table]
+            # classes the mappers of this table test for are kinds too
+            kinds = list(base) + classes
+            for _nm, f in fns:
+                if f is None:
+                    continue
+                for c in ast.walk(_view(ctx, f).node):
+                    if isinstance(c, ast.Call) and call_name(c) == "isinstance" and len(c.args) == 2:
+                        for t in (c.args[1].elts if isinstance(c.args[1], ast.Tuple) else [c.args[1]]):
+                            r = p.resolve_expr(f.module, t) if isinstance(t, (ast.Name, ast.Attribute)) else None
+                            if r and r[0] == "class" and all(r[1] is not k for k in kinds):
+                                kinds.append(r[1])
+            for j, (nm, f) in enumerate(fns):
+                if f is None or nm in ONE_WAY:
+                    continue
+                mine = [k for k in kinds if ke.apply(f, k) == {CHANGED}]
+                for i in range(j):
+                    enm, ef = fns[i]
+                    if ef is None or enm == nm:
+                        continue
+                    taken = [k for k in mine if ke.apply(ef, k) == {CHANGED}]
+                    res.inst(f"{fn.qualname}: {enm} before {nm}: converts none of {[kind_name(k) for k in mine]}", nontrivial=True, ok=not taken)
+                    if taken:
+                        names = [kind_name(k) for k in taken]
+                        res.find(fn.cls.name if fn.cls else "utils", fn.name, f"{enm} converts {names} before {nm} sees it", ef.where,
+                                 f"{enm} runs before {nm} in the table of {fn.qualname} and converts values of kind {names} itself: they never reach "
+                                 f"{nm}, are written with {enm}'s token and are not read back as the same value")
+    return res
+
+
+# -------------------------------------------------------------------------------------------------------------- ENABLE
+def _member_read(e, member, own=None) -> bool:
+    """e reads `member` of a form: form.get(member, ..) / form[member] / truth(ui_json, name, member); own(expr): the form wanted"""
+    if isinstance(e, ast.Call) and call_name(e) == "get" and isinstance(e.func, ast.Attribute) and e.args \
+            and isinstance(e.args[0], ast.Constant) and e.args[0].value == member:
+        return own is None or own(e.func.value)
+    if _key_is(e, member) and isinstance(e.ctx, ast.Load):
+        return own is None or own(e.value)
+    if isinstance(e, ast.Call) and call_name(e) == "truth":
+        m = e.args[2] if len(e.args) == 3 else next((k.value for k in e.keywords if k.arg == "member"), None)
+        return isinstance(m, ast.Constant) and m.value == member
+    return False
+
+
+def rule_enable(ctx) -> RuleResult:
+    res = RuleResult(
+        "C14.ENABLE",
+        "C14",
+        "set_enabled(ui_json, parameter, value) writes `value` into the parameter's own `enabled` member on every normal path on "
+        "which the form is optional — whatever group or dependency the form also has: the enabled state written to the file "
+        "follows the value given to an optional parameter",
+        floor=1,
+    )
+    p = ctx.p
+    u = p.cls("InputFile").methods.get("update_ui_values")
+    se = (_func(p, u, "set_enabled") if u is not None else None) or p.module("ui_json/utils.py").functions.get("set_enabled")
+    if se is None:
+        raise AnalysisError("C14: anchor ui_json.utils.set_enabled not found")
+    v = _view(ctx, se)
+    if len(v.params) < 3:
+        raise AnalysisError(f"{se.where}: set_enabled does not take (ui_json, parameter, value)")
+    flow = flow_of(ctx, v)
+    g = flow.g
+    ui, prm, val = v.params[:3]
+
+    def own(e):
+        at = flow.node_of(e)
+        return unparse(flow.resolve(e, at) if at is not None else e) == f"{ui}[{prm}]"
+
+    def stores(n):
+        if n.kind != "stmt":
+            return False
+        a = n.ast
+        if isinstance(a, ast.Assign):
+            return any(_key_is(t, "enabled") and own(t.value) for t in a.targets) and mentions(flow.resolve(a.value, n), val)
+        if isinstance(a, ast.Expr) and isinstance(a.value, ast.Call) and call_name(a.value) == "update" and isinstance(a.value.func, ast.Attribute) \
+                and own(a.value.func.value):
+            c = a.value
+            pairs = [(k.arg, k.value) for k in c.keywords] + [(kk.value, vv) for d in c.args if isinstance(d, ast.Dict)
+                                                             for kk, vv in zip(d.keys, d.values) if isinstance(kk, ast.Constant)]
+            return any(k == "enabled" and mentions(flow.resolve(x, n), val) for k, x in pairs)
+        return False
+
+    def feasible(n, label):
+        """can the test take this edge when the form's `optional` member is true?"""
+        if n.kind != "test" or label not in ("true", "false"):
+            return True
+        try:
+            atoms, f = bool_table(flow.resolve(n.ast, n), lambda e: "O" if _member_read(e, "optional", own_resolved) else "?" + unparse(e))
+        except NotBoolean:  # pragma: no cover
+            return True
+        if "O" not in atoms:
+            return True
+        return any(bool(f(env)) == (label == "true") for env in assignments(atoms) if env["O"])
+
+    def own_resolved(e):
+        return unparse(e) == f"{ui}[{prm}]"
+
+    store_nodes = [n for n in g.nodes if stores(n)]
+    seen, todo, escapes = set(), [g.entry], False
+    while todo:
+        n = todo.pop()
+        if n in seen or n in store_nodes:
+            continue
+        seen.add(n)
+        if n is g.exit:
+            escapes = True
+            continue
+        for m, lab in n.succ:
+            if lab in ("exc", "raise") or m is g.rexit:
+                continue
+            if feasible(n, lab):
+                todo.append(m)
+    ok = bool(store_nodes) and not escapes
+    res.inst(f"set_enabled: {len(store_nodes)} store(s) of the value into the form's own enabled member; an optional form can return without one: {escapes}",
+             nontrivial=True, ok=ok)
+    if not ok:
+        res.find("utils", "set_enabled", "an optional form can leave set_enabled without its own enabled member written", se.where,
+                 "for a form that is optional (and also has a group / a dependency) a path through set_enabled does not store the given state into "
+                 "ui_json[parameter]['enabled']: the parameter receives a value but is written with its stale enabled flag, and reads back as None "
+                 "(or stays enabled with an empty value)")
+    return res
+
+
+def rule_total(ctx) -> RuleResult:
+    res = RuleResult(
+        "C14.TOTAL",
+        "C14",
+        "the write mappers are total on integers: followed with a Python int as the value, no mapper of a write table hands it "
+        "to a floating-point finiteness predicate (np.isfinite / isnan / isinf, math.*) — numpy cannot coerce an int beyond 64 "
+        "bits and math overflows beyond the floats, so write_ui_json would raise instead of writing the integer",
+        floor=4,
+    )
+    p = ctx.p
+    pl = pipelines(ctx)
+    ke = _kind_eval(ctx)
+    for owner in ("demote", "stringify"):
+        fn = pl[owner][1]
+        for nm in dict.fromkeys(n for table in pl[owner].lists for n in table):
+            f = _func(p, fn, nm) or _mapper(ctx, pl, nm)
+            if f is None and fn.cls is not None and fn.cls.lookup(nm) and fn.cls.lookup(nm)[1] == "method":
+                f = fn.cls.lookup(nm)[2]
+            if f is None:
+                continue
+            ke.apply(f, "int")
+            hits = [(line, pred) for (view, line, pred) in ke.partial.values() if view.node is _view(ctx, f).node]
+            res.inst(f"{fn.qualname}: {nm} applied to an int: finiteness predicates reached: {sorted(set(x[1] for x in hits))}", nontrivial=True, ok=not hits)
+            if hits:
+                line, preds = min(x[0] for x in hits), sorted(set(x[1] for x in hits))
+                res.find("utils" if f.cls is None else f.cls.name, f.name, "a floating-point finiteness predicate is applied to a Python int",
+                         f"{f.module.relpath}:{line}",
+                         f"{nm} passes every int to {'/'.join(preds)}: for an integer parameter that does not fit 64 bits the predicate raises "
+                         "(TypeError from numpy, OverflowError from math) and write_ui_json fails instead of writing the value")
+    return res
+
+
+def rule_valid(ctx) -> RuleResult:
+    res = RuleResult(
+        "C14.VALID",
+        "C14",
+        "InputFile.numify validates a form AFTER its members went through the read mappers: what the form validators see is the "
+        "numified form (None, not the '' None is written as), so that every form that could be written can be read back",
+        floor=1,
+    )
+    from ..cfg import dominators
+
+    p = ctx.p
+    nf = p.cls("InputFile").methods.get("numify")
+    if nf is None:
+        raise AnalysisError("C14: anchor InputFile.numify not found")
+    v = _view(ctx, nf)
+    flow = flow_of(ctx, v)
+    g = flow.g
+    dom = None
+    nsite = 0
+    for n in g.nodes:
+        for part in Flow._parts(n):
+            for c in ast.walk(part):
+                if not (isinstance(c, ast.Call) and call_name(c) in ("ui_validation", "_ui_validators") and c.args):
+                    continue
+                nsite += 1
+                arg = c.args[0]
+                r = flow.resolve(arg, n)
+                ok = isinstance(r, ast.Call) and call_name(r) == "numify"
+                if not ok and isinstance(arg, ast.Name):
+                    # numified in place by an earlier statement on every path: numify(<the same local>) dominates the validation
+                    dom = dom or dominators(g)
+                    ok = any(d is not n and any(isinstance(x, ast.Call) and call_name(x) == "numify" and x.args and unparse(x.args[0]) == arg.id
+                                                for prt in Flow._parts(d) for x in ast.walk(prt)) for d in dom.get(n, ()))
+                res.inst(f"numify:{c.lineno} form validated after it was numified", nontrivial=True, ok=ok)
+                if not ok:
+                    res.find("InputFile", "numify", "a form is validated before its members are numified", f"{v.module.relpath}:{c.lineno}",
+                             "the form validators run on the raw strings of the file: a bool-or-None member (optional / enabled / main) that was None "
+                             "is written as '' and rejected as a str when the file is read (templates.drillhole_group_data writes \"optional\": None)")
+    if not nsite:
+        res.inst("numify: no form validation call (validation happens elsewhere)")
+    return res
+
+
+RULES = [rule_inv, rule_collide, rule_flat, rule_update, rule_cover, rule_shadow, rule_enable, rule_total, rule_valid]
